@@ -8,11 +8,17 @@ def plan(tier, seed):
     leads = (0, 5, 10) if quick else (0, 3, 6, 9, 12)
     tj = [{'scenario': sc, 'second': second, 'k': k, 'lead': lead} for sc in ('fresh', 'changed')
           for second in ('render', 'macro') for lead in leads]
+    # thread b completes its own check (and compilation) while thread a is paused at several points of its own
+    for sc in ('fresh', 'changed'):
+        for second in ('render', 'macro'):
+            for la in ((8, 16) if quick else (4, 8, 12, 16, 19)):
+                tj.append({'scenario': sc, 'second': second, 'k': 8 if quick else 10, 'lead': la, 'lead_b': 'use'})
     famT = dict(name='two_threads_shared_file_template', module=H, fn='threads', jobs=tj,
                 timeout=900 if quick else 3000, vacuity=1,
                 mutants=[{'name': 'cooked_flag_early', 'cfg': {'scenario': 'fresh', 'second': 'render', 'k': 10}},
                          {'name': 'stale_window', 'cfg': {'scenario': 'changed', 'second': 'render', 'k': 10}},
-                         {'name': 'flag_before_publish', 'cfg': {'scenario': 'fresh', 'second': 'macro', 'k': 8, 'lead': 10}}])
+                         {'name': 'flag_before_publish', 'cfg': {'scenario': 'fresh', 'second': 'macro', 'k': 8, 'lead': 10}},
+                         {'name': 'forget_before_publish', 'cfg': {'scenario': 'fresh', 'second': 'macro', 'k': 8, 'lead': 16, 'lead_b': 'use'}}])
     dj = [{'template': t} for t in ('globals-repeat', 'macro-code', 'mutable-args')]
     famD = dict(name='determinism_no_carried_state', module=H, fn='determinism', jobs=dj, timeout=900, vacuity=1,
                 program_key='template', mutants=[{'name': 'shared_repeat_dict', 'cfg': {'template': 'globals-repeat'}}])
@@ -34,7 +40,7 @@ def plan(tier, seed):
                    'chameleon.loader:TemplateLoader.load', 'chameleon.loader:cache'],
         bounds=('two threads on one shared file template (first, lazily compiling use; and use after the file changed), '
                 'each doing render() or a macro lookup: every statement-level interleaving of the real cook_check and '
-                'cook for %d symbolic scheduling decisions after thread a has run ahead 0/5/10 (thorough: 0..12) statements (the remainder runs sequentially), mtime()/read() and the '
+                'cook for %d symbolic scheduling decisions after thread a has run ahead 0/5/10 (thorough: 0..12) statements (the remainder runs sequentially) and, in a second set, after thread a has been paused at one of 2 (thorough 5) points and thread b has completed its own check and compilation, mtime()/read() and the '
                 'compile step are stubs that tag each compiled function with the file version; two threads loading the same / different names through one shared loader (the real cache wrapper and TemplateLoader.load, instrumented; a stub template class), %d scheduling decisions after thread a has run ahead 0/18 (thorough 0/6/12/18/20) of its about 22 statements: each gets the template it would get alone and the loader then serves one instance per name; determinism: 3 templates '
                 '(global definitions, repeat state, macro, code block, caller-owned list/dict arguments) rendered twice on '
                 'one instance, on a second instance and after a render with other arguments, for all symbolic '
